@@ -1391,8 +1391,50 @@ fn exec(op: &str, args: &[Sexp]) -> Ans {
 				_ => Ans::out_of_domain(),
 			}
 		}
+		// the whole writer, byte-exact: read the class with duke, write the tree with duke
+		("class-write", [b]) => {
+			let b = tr!(b.as_bytes());
+			let t = match catch_unwind(AssertUnwindSafe(|| duke::read_class(&mut Cursor::new(&b)))) {
+				Ok(Ok(t)) => t,
+				Ok(Err(_)) => return Ans::ok_tag("unreadable"),
+				Err(_) => return Ans::Panic("reader".into()),
+			};
+			match write(&t) {
+				W::Ok(out) => Ans::Ok(blob(&out)),
+				W::Err => Ans::err(),
+				W::Panic => Ans::Err("panic".into()),
+			}
+		}
+		// `Thm.C02.class_write_read_partial` evaluated on the implementation: a class of the proved fragment that is written is read
+		// back as the same description
+		("oracle-class-write-read", [b]) => {
+			let b = tr!(b.as_bytes());
+			let Ok(Ok(t1)) = catch_unwind(AssertUnwindSafe(|| duke::read_class(&mut Cursor::new(&b)))) else { return Ans::out_of_domain() };
+			if !in_writer_fragment(&t1) { return Ans::out_of_domain() }
+			match write(&t1) {
+				W::Err => Ans::out_of_domain(),
+				W::Panic => Ans::fail("panic"),
+				W::Ok(out) => match catch_unwind(AssertUnwindSafe(|| duke::read_class(&mut Cursor::new(&out)))) {
+					Ok(Ok(t2)) => if t1 == t2 || format!("{t1:?}") == format!("{t2:?}") { Ans::pass() } else { Ans::fail("differs") },
+					_ => Ans::fail("reread"),
+				},
+			}
+		}
 		_ => Ans::BadOp("unknown op".into()),
 	}
+}
+
+/// the fragment of `Thm.C02.class_write_read_partial` as far as it is visible in a tree that was read (valid names, flags within
+/// their masks and well-typed constants hold for every duke tree): no `Code`, no annotations, no `Record`, no `Module`
+fn in_writer_fragment(c: &ClassFile) -> bool {
+	c.runtime_visible_annotations.is_empty() && c.runtime_invisible_annotations.is_empty()
+		&& c.runtime_visible_type_annotations.is_empty() && c.runtime_invisible_type_annotations.is_empty()
+		&& c.module.is_none() && c.record_components.is_empty()
+		&& c.fields.iter().all(|f| f.runtime_visible_annotations.is_empty() && f.runtime_invisible_annotations.is_empty()
+			&& f.runtime_visible_type_annotations.is_empty() && f.runtime_invisible_type_annotations.is_empty())
+		&& c.methods.iter().all(|m| m.code.is_none() && m.annotation_default.is_none()
+			&& m.runtime_visible_annotations.is_empty() && m.runtime_invisible_annotations.is_empty()
+			&& m.runtime_visible_type_annotations.is_empty() && m.runtime_invisible_type_annotations.is_empty())
 }
 
 // ------------------------------------------------------------------------------------------------ generators
@@ -2217,6 +2259,54 @@ fn gen(r: &mut Rng, tier: Tier, out: &mut Out) {
 		out.op("oracle-cf-write-read", &[Sexp::tag("partial"), hex(&bytes)]);
 		// since 6210871 (StackMapTable written) the javac corpus reads back with its frames
 		out.op("oracle-cf-write-read", &[Sexp::tag("full"), hex(&bytes)]);
+	}
+
+	// ---- 11. the whole writer, byte-exact (`class-write`): javac corpus, hand-assembled classes, random classes with every
+	// attribute kind (c01gen) under several encodings
+	gen_class_write(r, thorough, out);
+}
+
+fn gen_class_write(r: &mut Rng, thorough: bool, out: &mut Out) {
+	use fvh::c01gen::{self, Cfg};
+	use fvh::c01model::{assemble, Choices};
+	for dir in ["/verif/corpus/classes", "/verif/corpus/c20"] {
+		let mut files: Vec<_> = std::fs::read_dir(dir).map(|d| d.filter_map(|e| e.ok()).map(|e| e.path()).filter(|p| p.extension().map(|e| e == "class").unwrap_or(false)).collect()).unwrap_or_else(|_| Vec::new());
+		files.sort();
+		for f in files {
+			let Ok(b) = std::fs::read(&f) else { continue };
+			out.stats.hit("class-write:corpus");
+			out.op("class-write", &[hex(&b)]);
+			out.op("oracle-class-write-read", &[hex(&b)]);
+		}
+	}
+	for k in 0..4 { for frames in 0..4 {
+		out.stats.hit("class-write:mini");
+		out.op("class-write", &[hex(&mini_class(k, frames))]);
+	} }
+	let n_classes = if thorough { 12000 } else { 500 };
+	for i in 0..n_classes {
+		let cfg = Cfg::random(r);
+		let mut st = fvh::run::Stats::default();
+		let g = c01gen::class(r, &cfg, &mut st);
+		for (k, v) in st.0 { out.stats.add(&format!("class-write:gen:{k}"), v); }
+		for v in 0..(if i % 4 == 0 { 2 } else { 1 }) {
+			let ch = if v == 0 && r.chance(1, 3) { Choices::plain() } else { Choices::random(r) };
+			let Ok(bytes) = catch_unwind(AssertUnwindSafe(|| assemble(&g, &ch, r))) else { out.stats.hit("class-write:skipped-not-encodable"); continue };
+			out.stats.hit("class-write:random-class");
+			out.op("class-write", &[hex(&bytes)]);
+			out.op("oracle-class-write-read", &[hex(&bytes)]);
+		}
+		// the same class cut down to the proved fragment of `class_write_read_partial`: no Code, annotations, Record, Module
+		let mut f = g.clone();
+		f.rva.clear(); f.ria.clear(); f.rvta.clear(); f.rita.clear(); f.records.clear(); f.module = None;
+		for x in &mut f.fields { x.rva.clear(); x.ria.clear(); x.rvta.clear(); x.rita.clear(); }
+		for m in &mut f.methods { m.code = None; m.annotation_default = None; m.rva.clear(); m.ria.clear(); m.rvta.clear(); m.rita.clear(); m.param_annos.clear(); }
+		let ch = Choices::random(r);
+		if let Ok(bytes) = catch_unwind(AssertUnwindSafe(|| assemble(&f, &ch, r))) {
+			out.stats.hit("class-write:fragment-class");
+			out.op("class-write", &[hex(&bytes)]);
+			out.op("oracle-class-write-read", &[hex(&bytes)]);
+		}
 	}
 }
 
